@@ -10,7 +10,8 @@ from ..seams import LIB_ERRORS
 from ..core import real
 from ..oracle import (L, ed_verify, sig_message, base_mult, point_add, pubkey_of_seed,
                       scalar_to_int, int_to_scalar, as_key_arg, PREFIXES,
-                      LOCK_FORMS, LIMITS, in_form)
+                      LOCK_FORMS, LIMITS, in_form, ARG_STYLES, styled_flags,
+                      styled_sigfields, maybe_twice)
 
 PID = 'C17'
 ISOLATE = True      # one forked process per run: nothing a run does to process-global
@@ -117,6 +118,7 @@ def gen_exchange(rng, cell):
     ex = {'variant': v, 'tweak_class': tw, 'tweak': tweak_bytes(rng, tw).hex(),
           'keys': rng.choice(['bytes', 'bytes', 'object']), 'prefix': rng.choice(PREFIXES),
           'form': rng.choice(LOCK_FORMS), 'limits': rng.below(len(LIMITS)),
+          'style': rng.choice(ARG_STYLES), 'twice': rng.chance(1, 4),
           # one builder exchange in five runs under a signature-extension plugin that is
           # configured through the sign / witness script prefix
           'sigext': rng.choice([None, None, None, None, '01', '02', 'ff'])
@@ -254,6 +256,7 @@ class Ex:
         self.t_eff = scalar_to_int(clamp255(self.t)) % L
         self.T = base_mult(int_to_scalar(self.t_eff))
         self.flags = spec['flags']
+        self.bflags = styled_flags(spec['flags'], spec.get('style', 'plain'))   # as spelled for builders
         self.ext = 0
         self.ext_src = ''
         self.ext_code = b''
@@ -292,8 +295,11 @@ def build_adapter(e, T_used):
         sa, R, T2 = st.get(), st.get(), st.get()
         e.T_from_private = T2
         return R, sa
-    w = real('make_adapter_witness', T.make_adapter_witness,
-             as_key_arg('prv', e.seed, e.spec.get('keys', 'bytes')), T_used, e.sf, e.flags,
+    # (the builder may be called twice with the same objects; the sigfields dict in the
+    # caller's insertion order)
+    w = real('make_adapter_witness', maybe_twice, bool(e.spec.get('twice')), T.make_adapter_witness,
+             as_key_arg('prv', e.seed, e.spec.get('keys', 'bytes')), T_used,
+             styled_sigfields(e.sf, e.spec.get('style', 'plain')), e.bflags,
              (e.spec.get('prefix', '') + ' ' + e.ext_src).strip())
     _, st, _ = real('run_script(adapter witness)', F.run_script, w.bytes, dict(e.sf))
     R, sa = st.get(), st.get()
@@ -316,17 +322,17 @@ def run_check(e, R, sa, Xv, Tv, mv, sfv, prefix=False):
             return items == [b'\xff']
         if e.v == 'two_script':
             s1, _ = T.make_adapter_locks_pub(as_key_arg('pub', Xv, e.spec.get('keys', 'bytes')),
-                                             Tv, e.flags)
+                                             Tv, e.bflags)
         elif e.v == 'three_script':
             # B knows t; its view of T is what it derives -- unless its view is corrupted
             if Tv == e.T:
-                s1, _, _ = T.make_adapter_locks_prv(Xv, e.t, e.flags)
+                s1, _, _ = T.make_adapter_locks_prv(Xv, e.t, e.bflags)
             else:
-                s1, _ = T.make_adapter_locks_pub(Xv, Tv, e.flags)
+                s1, _ = T.make_adapter_locks_pub(Xv, Tv, e.bflags)
         else:
             # deprecated single lock: the check is the first half of the lock; use the
             # two-script check script for B's standalone validation
-            s1, _ = T.make_adapter_locks_pub(Xv, Tv, e.flags)
+            s1, _ = T.make_adapter_locks_pub(Xv, Tv, e.bflags)
         return F.run_auth_scripts([w, _fm(e, s1)], dict(sfv), **_lim(e)) is True
     except LIB_ERRORS:
         return False
@@ -369,7 +375,7 @@ def spend(e, sig, run):
         sf = {'sigfield1': e.m}
         item = sig
     else:
-        lock = T.make_single_sig_lock(e.X, e.flags)
+        lock = T.make_single_sig_lock(e.X, e.bflags)
         sf = dict(e.sf)
         item = sig + (bytes.fromhex(e.flags) if int(e.flags, 16) else b'')
     try:
@@ -386,15 +392,15 @@ def one_shot(e, R, sa, run):
     glue = 'concat' + (' push x%s concat' % e.flags if int(e.flags, 16) else '')
     try:
         if e.v == 'three_script':
-            s1, s2, s3 = T.make_adapter_locks_prv(e.X, e.t, e.flags)
+            s1, s2, s3 = T.make_adapter_locks_prv(e.X, e.t, e.bflags)
             return F.run_auth_scripts([w, _fm(e, s2), T.compile_script(glue), _fm(e, s3)],
                                       dict(e.sf), **_lim(e)) is True
         if e.v == 'deprecated':
-            lock = T.make_adapter_lock_prv(e.X, e.t, e.flags)
+            lock = T.make_adapter_lock_prv(e.X, e.t, e.bflags)
             return F.run_auth_scripts([e.ext_code + pb(e.t) + pb(sa) + pb(R), _fm(e, lock)],
                                       dict(e.sf), **_lim(e)) is True
         if e.v == 'two_script':
-            s1, s2 = T.make_adapter_locks_pub(e.X, e.T, e.flags)
+            s1, s2 = T.make_adapter_locks_pub(e.X, e.T, e.bflags)
             dec = T.make_adapter_decrypt(e.t)
             return F.run_auth_scripts([w, _fm(e, dec), T.compile_script(glue), _fm(e, s2)],
                                       dict(e.sf), **_lim(e)) is True
